@@ -6,12 +6,12 @@ d="$(cd "$1" && pwd)"; out="$2"
 wt="/tmp/cs-$$"
 lt_mk_worktree "$wt" >/dev/null 2>&1 || { echo '{"error":"worktree"}' > "$out"; exit 2; }
 cd "$wt"
-( sh "$d/run_demo.sh" "$wt" ) > "$wt.clean.log" 2>&1; clean_rc=$?
+( bash "$d/run_demo.sh" "$wt" ) > "$wt.clean.log" 2>&1; clean_rc=$?
 git apply "$d/patch.diff"; apply_rc=$?
 make -j8 > "$wt.make.log" 2>&1; make_rc=$?
 make -C test check -j8 > "$wt.test.log" 2>&1; test_rc=$?
 tests_ok=$(grep -c "All 8 tests passed" "$wt.test.log")
-( sh "$d/run_demo.sh" "$wt" ) > "$wt.patched.log" 2>&1; patched_rc=$?
+( bash "$d/run_demo.sh" "$wt" ) > "$wt.patched.log" 2>&1; patched_rc=$?
 cd /
 git -C /repo worktree remove --force "$wt"
 printf '{"demo_rc_clean": %s, "patch_applies": %s, "make_rc": %s, "test_rc": %s, "all_8_tests_passed": %s, "demo_rc_patched": %s}\n' \
